@@ -104,3 +104,97 @@ SORT += [
     T('herm_sort_guard', 'HermEigsBase::sort_ritzpair', 'HermEigsBase.h', mode='guard', throws=True, slice=first_n(1),
       params={'sort_rule': 'enum'}, ret_type='Res Unit'),
 ]
+
+# ------------------------------------------------------------------ Guard (constructor / argument checks)
+def ctor_index(i):
+    return i
+
+GUARD = [
+    T('herm_ctor_lvalue', 'HermEigsBase::HermEigsBase', 'HermEigsBase.h', index=0, mode='guard', throws=True,
+      members={'m_n': 'int', 'm_nev': 'int', 'm_ncv': 'int'}, ctor_inits={'m_n': 'int', 'm_nev': 'int', 'm_ncv': 'int'},
+      ctor_init_params={'m_n': 'n'}, ignore_params=['op', 'Bop'], ret_type='Res Unit'),
+    T('herm_ctor_rvalue', 'HermEigsBase::HermEigsBase', 'HermEigsBase.h', index=1, mode='guard', throws=True,
+      members={'m_n': 'int', 'm_nev': 'int', 'm_ncv': 'int'}, ctor_inits={'m_n': 'int', 'm_nev': 'int', 'm_ncv': 'int'},
+      ctor_init_params={'m_n': 'n'}, ignore_params=['op', 'Bop'], ret_type='Res Unit'),
+    T('herm_ncv_member', 'HermEigsBase::HermEigsBase', 'HermEigsBase.h', index=0, mode='state', state_out=['m_ncv'],
+      members={'m_n': 'int', 'm_nev': 'int', 'm_ncv': 'int'}, ctor_inits={'m_n': 'int', 'm_nev': 'int', 'm_ncv': 'int'},
+      ctor_init_params={'m_n': 'n'}, ignore_params=['op', 'Bop'], slice=lambda fn, ss: [], ret_type='Int'),
+    T('gen_ctor', 'GenEigsBase::GenEigsBase', 'GenEigsBase.h', index=0, mode='guard', throws=True,
+      members={'m_n': 'int', 'm_nev': 'int', 'm_ncv': 'int'}, ctor_inits={'m_n': 'int', 'm_nev': 'int', 'm_ncv': 'int'},
+      ctor_init_params={'m_n': 'n'}, ignore_params=['op', 'Bop'], ret_type='Res Unit'),
+    T('gen_ncv_member', 'GenEigsBase::GenEigsBase', 'GenEigsBase.h', index=0, mode='state', state_out=['m_ncv'],
+      members={'m_n': 'int', 'm_nev': 'int', 'm_ncv': 'int'}, ctor_inits={'m_n': 'int', 'm_nev': 'int', 'm_ncv': 'int'},
+      ctor_init_params={'m_n': 'n'}, ignore_params=['op', 'Bop'], slice=lambda fn, ss: [], ret_type='Int'),
+]
+MODULES.append(('Guard', GUARD, ''))
+
+def sigma_guards(tu, t):
+    """SymGEigsShiftSolver<.., Mode>::set_shift_and_move for each mode specialisation: the leading throwing checks"""
+    branches = []
+    for o in tu.objs:
+        if o.get('name') == 'SymGEigsShiftSolver' and o['kind'] == 'ClassTemplatePartialSpecializationDecl':
+            tas = [c for c in o['inner'] if c['kind'] == 'TemplateArgument']
+            mode = [x.get('value') for x in tas if 'value' in x]
+            if len(mode) != 1: raise XlateError('cannot identify GEigsMode of a SymGEigsShiftSolver specialisation')
+            ms = [c for c in o['inner'] if c['kind'] == 'CXXMethodDecl' and c.get('name') == 'set_shift_and_move']
+            if len(ms) != 1: raise XlateError('set_shift_and_move not found')
+            fn = Fn(tu, ms[0], dict(mode='guard', throws=True, params={'sigma': 'sc'}, ignore_params=['op'],
+                                    slice=lambda f, ss: [s for s in ss if s['kind'] == 'IfStmt' and f.escapes(s)]))
+            txt, _ = fn.translate('g')
+            body = txt.split(':=\n', 1)[1]
+            branches.append((mode[0], body))
+    if not branches: raise XlateError('no SymGEigsShiftSolver specialisations found')
+    s = 'def sigma_guard {α : Type} [Add α] [Sub α] [Mul α] [Div α] [Neg α] [Sc α] (mode : Int) (sigma : α) : Res Unit :=\n'
+    for mode, body in sorted(branches):
+        s += f'  if mode = {mode} then (\n' + '\n'.join('  ' + l for l in body.split('\n')) + '\n  ) else\n'
+    s += '  Res.ok ()\n'
+    return s
+
+GUARD += [
+    dict(lean='sigma_guard', header='SymGEigsShiftSolver.h', custom=sigma_guards, path='SymGEigsShiftSolver::set_shift_and_move'),
+    T('jd_check_argument', 'JDSymEigsBase::check_argument', 'JDSymEigsBase.h', mode='guard', throws=True,
+      members={'m_number_eigenvalues': 'int', 'm_matrix_operator': 'other'}, ret_type='Res Unit',
+      methods={('m_matrix_operator', 'cols'): ('n', 'int'), ('m_matrix_operator', 'rows'): ('n', 'int')}),
+]
+
+def ctor_raw_new(tu, t):
+    """every constructor in namespace Spectra: raw `new` expressions whose result would leak if a LATER action of the same
+    constructor throws (no destructor runs for a partially constructed object).  A later action inside a `try` with a
+    catch-all handler counts as protected."""
+    def contains(x, kinds):
+        if not isinstance(x, dict): return False
+        if x.get('kind') in kinds: return True
+        return any(contains(c, kinds) for c in x.get('inner', []))
+    def may_throw(x):
+        return contains(x, ('CXXNewExpr', 'CallExpr', 'CXXMemberCallExpr', 'CXXConstructExpr', 'CXXUnresolvedConstructExpr', 'CXXThrowExpr', 'CXXOperatorCallExpr', 'CXXTemporaryObjectExpr'))
+    def protected_try(x):
+        if x.get('kind') != 'CXXTryStmt': return False
+        return any(h.get('kind') == 'CXXCatchStmt' and not any(c.get('kind') == 'VarDecl' for c in h.get('inner', [])) for h in x.get('inner', []))
+    res = []
+    def visit_class(name, rec):
+        for c in rec.get('inner', []):
+            ctors = []
+            if c.get('kind') == 'CXXConstructorDecl': ctors = [c]
+            elif c.get('kind') == 'FunctionTemplateDecl': ctors = [x for x in c.get('inner', []) if x.get('kind') == 'CXXConstructorDecl'][:1]
+            for k in ctors:
+                inits = [x for x in k.get('inner', []) if x.get('kind') == 'CXXCtorInitializer']
+                body = [x for x in k.get('inner', []) if x.get('kind') == 'CompoundStmt']
+                stmts = list(body[0].get('inner', [])) if body else []
+                actions = inits + stmts
+                n_unprot = 0
+                for i, a_ in enumerate(actions):
+                    if a_.get('kind') == 'CXXTryStmt': continue
+                    if not contains(a_, ('CXXNewExpr',)): continue
+                    later = actions[i + 1:]
+                    if any(may_throw(l) and not protected_try(l) for l in later): n_unprot += 1
+                if contains(k, ('CXXNewExpr',)): res.append((name, n_unprot))
+    for o in tu.objs:
+        if o.get('kind') == 'ClassTemplateDecl':
+            for rec in [c for c in o.get('inner', []) if c.get('kind') == 'CXXRecordDecl'][:1]: visit_class(o['name'], rec)
+        elif o.get('kind') in ('ClassTemplatePartialSpecializationDecl', 'CXXRecordDecl'):
+            visit_class(o.get('name', '?'), o)
+    s = '-- (class, number of raw `new` results that leak if a later constructor action throws), for every constructor that uses `new`\n'
+    s += 'def ctor_raw_new : List (String × Nat) := [' + ', '.join(f'("{n}", {k})' for n, k in res) + ']\n'
+    return s
+
+GUARD += [dict(lean='ctor_raw_new', header='contrib/PartialSVDSolver.h', custom=ctor_raw_new, path='*')]
